@@ -96,6 +96,7 @@ func (t *template) RenderReader(ctx context.Context, w io.Writer, r io.Reader) e
 	if err != nil {
 		return fmt.Errorf("error parsing template: %w", err)
 	}
+	assignSeenAttrs(t.filename, dom)
 
 	// Create VueContext with filename from loaded template
 	vueCtx := NewVueContext(t.filename, &VueContextOptions{
